@@ -136,7 +136,7 @@ func TestVerifC15(t *testing.T) {
 	// ---- random dumps up to length 40: chains of nested prefixes below a few bases
 	n := 500
 	if verifh.Thorough() {
-		n = 8000
+		n = 5000
 	}
 	his := []uint64{0x20010db800000000, 0x20010db800000001, 0x20010db800010000, 0x20010db8ffffffff, 0xfd00000000000000,
 		0xfd00000100000000, 0x0, 0x8000000000000000, 0xffffffffffffffff, 0x20010db900000000}
